@@ -38,6 +38,7 @@ pub fn record(id: usize, prop: &str, text: &str, row_lines: Option<Vec<usize>>, 
         ),
     };
     let parsed = guarded(|| ParsedTestCase::from_str(text));
+    let mut err_spans: Vec<J> = vec![];
     let (res, dump, spans_ok, render_ok, msg) = match parsed {
         Err(p) => ("panic", empty_dump(), true, true, p),
         Ok(Ok(p)) => {
@@ -48,6 +49,7 @@ pub fn record(id: usize, prop: &str, text: &str, row_lines: Option<Vec<usize>>, 
             // C09: every location lies within the source on character boundaries, and the error renders
             let spans_ok = e.at.iter().all(|sp| sp.start <= sp.end && sp.end <= text.len() && text.is_char_boundary(sp.start) && text.is_char_boundary(sp.end));
             let msg = format!("{:?}", e.at);
+            err_spans = e.at.iter().map(|sp| json!([sp.start, sp.end])).collect();
             let src = text.to_string();
             let render_ok = guarded(move || {
                 let report = miette::Report::new(e).with_source_code(src);
@@ -60,7 +62,7 @@ pub fn record(id: usize, prop: &str, text: &str, row_lines: Option<Vec<usize>>, 
     };
     json!({
         "ev": "parse", "id": id, "prop": prop, "cs": cs, "lexed": lexed, "tokens": tokens, "res": res, "dump": dump,
-        "reparse_ok": true, "spans_ok": spans_ok, "render_ok": render_ok, "has_truth": row_lines.is_some(), "row_lines": row_lines.unwrap_or_default(),
+        "reparse_ok": true, "err_spans": err_spans, "spans_ok": spans_ok, "render_ok": render_ok, "has_truth": row_lines.is_some(), "row_lines": row_lines.unwrap_or_default(),
         "group": group, "note": note, "msg": msg, "text": text,
     })
 }
